@@ -24,6 +24,8 @@ pub struct Stats {
     pub evaluations: u64,
     pub outcomes: BTreeMap<String, u64>,
     pub nontrivial: HashSet<u64>,
+    /// cases that are distinct by construction (one per enumeration index): counted, not hashed
+    pub nontrivial_n: u64,
     pub counters: BTreeMap<String, u64>,
     pub samples: Vec<Value>,
     pub violations: Vec<Violation>,
@@ -48,6 +50,12 @@ impl Stats {
         let mut s = std::collections::hash_map::DefaultHasher::new();
         h.hash(&mut s);
         self.nontrivial.insert(s.finish());
+    }
+    pub fn nontrivial_by_index(&mut self) {
+        self.nontrivial_n += 1;
+    }
+    pub fn nt(&self) -> u64 {
+        self.nontrivial.len() as u64 + self.nontrivial_n
     }
     pub fn sample(&mut self, v: Value) {
         if self.samples.len() < self.max_samples {
@@ -77,6 +85,7 @@ impl Stats {
             *self.counters.entry(k).or_insert(0) += v;
         }
         self.nontrivial.extend(o.nontrivial);
+        self.nontrivial_n += o.nontrivial_n;
         for s in o.samples {
             if self.samples.len() < self.max_samples.max(4) {
                 self.samples.push(s);
@@ -177,7 +186,7 @@ impl Report {
             name,
             space,
             stats.evaluations,
-            stats.nontrivial.len(),
+            stats.nt(),
             exhaustive,
             capped,
             stats.violations.len(),
@@ -243,7 +252,7 @@ impl Report {
         let mut all_exh = true;
         for sub in &self.subs {
             evaluations += sub.stats.evaluations;
-            nontrivial += sub.stats.nontrivial.len() as u64;
+            nontrivial += sub.stats.nt();
             for s in sub.stats.samples.iter().take(3) {
                 samples.push(json!({"sub_space": sub.name, "case": s}));
             }
@@ -253,7 +262,7 @@ impl Report {
             m.insert("bound".into(), json!(sub.bound));
             m.insert("space".into(), json!(sub.space));
             m.insert("evaluations".into(), json!(sub.stats.evaluations));
-            m.insert("distinct_nontrivial".into(), json!(sub.stats.nontrivial.len()));
+            m.insert("distinct_nontrivial".into(), json!(sub.stats.nt()));
             m.insert("exhaustive".into(), json!(sub.exhaustive));
             m.insert("capped".into(), json!(sub.capped));
             m.insert("outcomes".into(), json!(sub.stats.outcomes));
